@@ -1,0 +1,20 @@
+//go:build verif
+// +build verif
+
+package core
+
+import "context"
+
+// Verification hooks (build tag "verif") for property C10 (squash): run the
+// unchanged upload / publish implementations with a chosen number of entries per
+// index file, so that small bundles span several index files. No behaviour is changed.
+
+// VerifC10Upload is Upload with entriesPerFile entries per index file.
+func VerifC10Upload(ctx context.Context, bundle *Bundle, entriesPerFile uint, opts ...Option) error {
+	return implUpload(ctx, bundle, entriesPerFile, nil, opts...)
+}
+
+// VerifC10Publish is Publish for a bundle uploaded with entriesPerFile entries per index file.
+func VerifC10Publish(ctx context.Context, bundle *Bundle, entriesPerFile uint) error {
+	return implPublish(ctx, bundle, entriesPerFile, func(string) (bool, error) { return true, nil })
+}
